@@ -157,9 +157,24 @@ def evaluate(case: Dict[str, Any], base: Any, ctx: Any = None) -> List[Tuple[str
         for f in spec.fns:
             if f.kind != "pattern" or not f.examples:
                 continue
-            item_refs = [cp_refs[pr.type.core.item.name] for c in spec.classes for pr in c.props
-                         if pr.type.core.kind == "list" and pr.type.core.item.kind == "cp"]
-            used_alone = [r for r in list(prop_refs.values()) + item_refs if r.patterns == [f.pattern]]
+            # only constraints the XSD is meant to enforce: declared in the class that declares the property,
+            # or coming from a constrained primitive used as value or list item
+            fn_pat = {g.name: g.pattern for g in spec.fns if g.kind == "pattern"}
+            used_alone = []
+            for c in spec.classes:
+                for pr in c.props:
+                    pats = []
+                    core = pr.type.core
+                    if core.kind == "cp":
+                        pats += cp_refs[core.name].patterns
+                    if core.kind == "list" and core.item.kind == "cp":
+                        if cp_refs[core.item.name].patterns == [f.pattern]:
+                            used_alone.append(core.item.name)
+                    for inv in c.invs:
+                        if inv.tags.get("prop") == pr.name and inv.tags.get("recognised") and inv.tags.get("form") == "pattern":
+                            pats += [fn_pat[x] for x in inv.tags["fns"]]
+                    if pats == [f.pattern]:
+                        used_alone.append(pr.name)
             if not used_alone:
                 continue
             # the single-pattern translation of P is P without anchors: find emitted patterns that accept all examples
@@ -195,6 +210,8 @@ def evaluate(case: Dict[str, Any], base: Any, ctx: Any = None) -> List[Tuple[str
                 e0 = errs[0]
                 reason = str(getattr(e0, "reason", e0))[:300]
                 kind = _kind(reason)
+                if kind in ("unexpected-child", "missing-child") and _diamond_in(spec, neutral):
+                    kind += ":class-with-diamond-inheritance-gets-the-common-ancestor-group-twice"
                 fails.append((f"valid-document-rejected:{kind}",
                               f"reason={reason}\npath={getattr(e0, 'path', None)}\nxml={xml[:900]}\ninstance={neutral!r}\n{p.text[-1500:]}"))
     return fails
@@ -208,6 +225,25 @@ def _kind(reason: str) -> str:
         if re.search(pat, reason, re.I):
             return key
     return "other"
+
+
+def _is_diamond(spec: Any, cname: str) -> bool:
+    """Some ancestor is reachable over two different bases."""
+    seen = set()  # type: set
+    for b in spec.cls(cname).bases:
+        reach = set([b] + spec.ancestors(b))
+        if seen & reach:
+            return True
+        seen |= reach
+    return any(_is_diamond(spec, b) for b in spec.cls(cname).bases)
+
+
+def _diamond_in(spec: Any, v: Any) -> bool:
+    if isinstance(v, dict) and "cls" in v:
+        return _is_diamond(spec, v["cls"]) or any(_diamond_in(spec, x) for x in v["props"].values())
+    if isinstance(v, list):
+        return any(_diamond_in(spec, x) for x in v)
+    return False
 
 
 def _mentions_abstract(spec: Any, t: Any) -> bool:
